@@ -36,7 +36,8 @@ Checks(e) ==
               /\ c.file = (IF Len(c.s) = 1 THEN FileOfByte(c.s[1]) ELSE -1)
               /\ c.rank = (IF Len(c.s) = 1 THEN RankOfByte(c.s[1]) ELSE -1)
               /\ c.piece = (IF Len(c.s) = 1 THEN PieceOfByte(c.s[1]) ELSE -1)
-              /\ c.promo = (IF Len(c.s) = 1 THEN PromoOfByte(c.s[1]) ELSE -1))
+              /\ c.promo = (IF Len(c.s) = 1 THEN PromoOfByte(c.s[1]) ELSE -1)
+              /\ ("str_agrees" \in DOMAIN c => c.str_agrees))
     ELSE IF e.ev = "display" THEN
          Fail("file-text", \A f \in 0..7 : e.file[f + 1] = FileText(f))
          \cup Fail("rank-text", \A r \in 0..7 : e.rank[r + 1] = RankText(r))
